@@ -60,9 +60,12 @@ TEXT = {
  },
  "C06": {
   "level": "Theorems C06_check_failed, C06_bad_response, C06_download_failed, afterCheck_healthy and C06_holds (= the C05 monitor over all histories and arbitrary server scripts: every "
-           "request may fail, responses may be contradictory). Callback-level fault injection at every request position runs on the real library; totality of `step` gives 'every call returns'.",
+           "request may fail, responses may be contradictory), C06_requests_hold (monitor mon06 over all histories: a failed patch check ends the update with the check error before any download; "
+           "'installed' only if check and download both succeeded; a check whose request failed answers false). Callback-level fault injection at every request position runs on the real library, "
+           "and the same histories run over REAL HTTP: the library's default hooks (reqwest, handle_network_result, its JSON on the wire) against a scripted misbehaving HTTP/1.1 server on loopback "
+           "(4xx/5xx incl. an error status carrying a positive answer, resets, non-HTTP bytes, truncated / mistyped JSON, undelivered bodies, short stalls); totality of `step` gives 'every call returns'.",
   "design_ref": "DESIGN.md section 4, C06",
-  "note": "partial: reqwest/TLS/socket behaviour is runtime and only its classified result is modelled.",
+  "note": "partial: only the classified result of each request is in the model; TLS, DNS, proxies, cross-host redirects and long stalls are not exercised.",
   "technique": "Lean 4 theorems + differential correspondence check with scripted network failures",
  },
  "C20": {
